@@ -24,4 +24,35 @@ PROPS = {
         "level_note": "Trusted: the harness oracle table of which modifier disables which option (taken from the property statement).",
         "assumptions": COMMON_ASSUME + ["document implies elemhide+jsinject+urlblock+content+extension as documented"],
     },
+    "C07": {
+        "shards": (2, 8),
+        "rule": "pool = full product of the features IsHigherPriority reads (exception x important x {no,permitted,restricted-only} domain x 4 content-type shapes x 4 flag options x dnstype x ctag x client x denyallow = 3072 rules). "
+                "Exhaustive: all ordered pairs of the pool (irreflexive, asymmetric, agreement with documented rank (class, specific, #modifiers)), every 'add one modifier' pair, all triples over a strided sub-pool (transitivity of > and of incomparability). "
+                "rapid: sampled 2..5-rule law cases, and candidate lists of 2..6 near-tie rules fed in ALL permutations to NewMatchingResult and GetDNSBasicRule (winner not outranked, maximal documented rank, same rank for every order). "
+                "Non-trivial/distinct = a pool rule whose full comparison row was checked, or a distinct candidate multiset for the selection check.",
+        "exhaustive_note": "pairs: 3072x3072; add-modifier pairs; triples over the sub-pool (stride 24 quick / 12 thorough)",
+        "technique": "exhaustive enumeration over a feature-product pool + rapid-generated candidate lists over all permutations, oracle = documented rank tuple",
+        "level_text": "Pairs are decided exhaustively over the pool that spans every feature the comparison reads; triples exhaustively over a sub-pool; selection sampled with all permutations.",
+        "level_note": "Trusted: harness rank function (class, domain-specific, modifier count) derived from the rule text; $redirect is not parseable in this version and is not covered.",
+        "assumptions": COMMON_ASSUME + ["the comparison reads only the features spanned by the pool (checked by reading IsHigherPriority; $redirect cannot be parsed)"],
+    },
+    "C09": {
+        "shards": (4, 16),
+        "rule": "sequences of $dnsrewrite rules for one host over an alphabet shape x important x exception; exhaustive up to a length bound (reduced alphabet of 22 symbols: len<=4 quick / <=5 thorough; full alphabet of 46 symbols incl. AAAA/TXT/MX/SRV/HTTPS/REFUSED: len<=2 quick / <=3 thorough), each checked on a hand-built DNSResult and (len<=3) through a DNSEngine; rapid samples sequences of length 4..12. "
+                "Oracle: two-pass filter of DNSRewritesAll() with value equality by content. Non-trivial = >=2 exceptions or an exception with a structured (MX/SRV/SVCB) value; distinct by (sequence, entry point).",
+        "exhaustive_note": "all sequences up to the stated length bounds over the stated alphabets, partitioned over shards by first symbol",
+        "technique": "bounded-exhaustive sequence enumeration + rapid sampling against a two-pass reference filter",
+        "level_text": "Every sequence up to the length bound is enumerated, so order-dependence within the bound is decided; longer sequences are sampled.",
+        "level_note": "Trusted: reflect.DeepEqual as value equality; the $dnsrewrite parser (its shape is C10's subject).",
+        "assumptions": COMMON_ASSUME + ["exception semantics as in the property statement; $badfilter on rewrite rules belongs to C08"],
+    },
+    "C04": {
+        "shards": (4, 16),
+        "rule": "rapid: NetRule models over the modifier grammar (third/first-party, match-case, content types incl/excl, $domain perm/restr with sub-domains and name.*, $denyallow, $dnstype, $ctag, $client names/IPs/CIDRs with quoting), rendered twice with independent modifier and value orders; 3..8 requests per rule built from the rule (all modifiers satisfied, then 0..2 field groups re-drawn; 1 in 5 unsteered). "
+                "Oracle: reference mask matcher on the documented target AND text-level modifier evaluator. Non-trivial = rule with >=2 modifiers and a request whose pattern part matches (outcome decided by modifiers); distinct by (rule text, request). labels 'decided-by:*' give the distribution of the deciding conjunct.",
+        "technique": "model-render-parse property-based testing (rapid) against an independent reference evaluator",
+        "level_text": "Generated search over the modifier grammar; each modifier is individually decisive in a measured share of cases (see labels).",
+        "level_note": "Trusted: harness reference (refMask, refMatch, publicsuffix list from x/net).",
+        "assumptions": COMMON_ASSUME + ["host names are lower-case in host-name requests (caller pre-condition)", "IPv4-mapped client addresses and zones are not generated"],
+    },
 }
